@@ -13,6 +13,7 @@ package mod_prison
 //@   requires f != nil
 //@   modifies f.count, f.startTime
 //@   ensures[a_new_window_starts_empty] f.count == 0
+//@   ensures[the_new_window_starts_at_the_current_clock_reading] f.startTime == time.startNano && time.startNano >= old(time.startNano)
 
 //@ func (*AccessCounter).IncAndCheck
 //@   props C53
@@ -26,6 +27,7 @@ package mod_prison
 //@   assert[after_the_window_counting_starts_again_with_this_request] at "return count > threshold" :: old(c.startTime) + checkPeriodNs < now ==> count == 1
 //@   ensures[the_counter_holds_the_count] (old(c.startTime) + checkPeriodNs >= 0 ==> true) && c.count >= 1
 //@   ensures[blocked_exactly_when_the_count_exceeds_the_threshold] result0 == (c.count > threshold)
+//@   assert[after_the_window_the_new_window_starts_no_earlier_than_this_request] at "return count > threshold" :: old(c.startTime) + checkPeriodNs < now ==> stime >= now
 
 //@ func NewAccessCounter
 //@   props C53
